@@ -17,6 +17,8 @@ CONFIGS = {
         dict(Mode='"direct"', Wraps=ALL_WRAPS, AVals="{0, 1, 2}", SVals='{"unset", "empty", "p", "pq"}', MaxOps=3),
         # overlapping SetSource calls (the Blank's mutex makes them atomic): small value universe, every pair overlapped or not
         dict(Mode='"blank"', Wraps='{"none"}', AVals="{1, 2}", SVals='{"unset"}', MaxOps=3, Overlap="TRUE"),
+        # a Blank inside a transforming source (seeded outer mangler list), inner sources plain or wrapped once more
+        dict(Mode='"tblank"', Outer="?", Wraps='{"none", "set"}', AVals="{0, 1}", SVals='{"unset", "p"}', MaxOps=3),
     ],
     "thorough": [
         # sizes measured: 283k / ~730k / ~205k / ~46k histories (every history is emitted by one TLC worker and executed)
@@ -24,6 +26,9 @@ CONFIGS = {
         dict(Mode='"blank"', Wraps='{"none", "set", "alias"}', AVals="{0, 1}", SVals='{"unset", "empty", "pq"}', MaxOps=3),
         dict(Mode='"direct"', Wraps=ALL_WRAPS, AVals="{0, 1}", SVals='{"unset", "empty", "pq"}', MaxOps=4),
         dict(Mode='"blank"', Wraps='{"none"}', AVals="{1, 2}", SVals='{"unset", "p"}', MaxOps=3, Overlap="TRUE"),
+        dict(Mode='"tblank"', Outer='"alias"', Wraps='{"none", "set"}', AVals="{0, 1}", SVals='{"unset", "pq"}', MaxOps=3),
+        dict(Mode='"tblank"', Outer='"set"', Wraps='{"none", "tag"}', AVals="{0, 1}", SVals='{"unset", "empty", "p"}', MaxOps=3),
+        dict(Mode='"tblank"', Outer='"tag"', Wraps='{"none", "alias"}', AVals="{0, 1}", SVals='{"unset", "p"}', MaxOps=3),
     ],
 }
 QUICK_CAP = 25000      # cases executed per configuration in the quick tier (seeded sample beyond it)
@@ -31,7 +36,7 @@ QUICK_CAP = 25000      # cases executed per configuration in the quick tier (see
 
 def write_cfg(path, consts, toggles=(), emit=True):
     lines = ["SPECIFICATION Spec", "CONSTANTS"]
-    for k, v in dict({"Overlap": "FALSE"}, **consts).items():
+    for k, v in dict({"Overlap": "FALSE", "Outer": '"none"'}, **consts).items():
         lines.append("  %s = %s" % (k, v))
     for t in ("BUG_NoReverse", "BUG_ReplaceWatcher"):
         lines.append("  %s = %s" % (t, "TRUE" if t in toggles else "FALSE"))
@@ -52,7 +57,7 @@ def emit_cases(scratch, idx, consts, toggles=(), emit=True):
         if line.startswith('<<"CASE"'):
             js = line[line.index(",") + 1:].strip()
             js = js[:js.rindex(">>")].strip()
-            cases.append({"mode": mode, "hist": json.loads(json.loads(js))})
+            cases.append({"mode": mode, "outer": consts.get("Outer", '"none"').strip('"'), "hist": json.loads(json.loads(js))})
     return cases, res
 
 
@@ -128,6 +133,9 @@ def run_check(pid, tier, replay=None):
             # depth 3 on a seeded slice of the alphabets; the full alphabets at depth 2 (blank) / 3 (direct)
             configs[0]["Wraps"] = '{"none", "%s"}' % rng.choice(["set", "tag", "alias", "aliasset"])
             configs[0]["SVals"] = '{"unset", "%s"}' % rng.choice(["p", "empty", "pq"])
+            for c in configs:
+                if c.get("Outer") == "?":
+                    c["Outer"] = '"%s"' % rng.choice(["set", "tag", "alias", "aliasset"])
         for i, consts in enumerate(configs):
             cases, res = emit_cases(scratch, i, consts)
             if not res.ok:
